@@ -24,6 +24,8 @@ NE = len(NAMES)
 CFG = shard_int("CFG", 0)
 SH0 = shard_int("SH0", 0)
 SH1 = shard_int("SH1", -1)
+SH1LO = shard_int("SH1LO", 0)
+SH1HI = shard_int("SH1HI", 99)
 # per-call configuration: (types, accept kind, stop kind, timeout); kinds: 0 = None, 1 = key == parameter
 CONFIGS = [
     # call0, call1
@@ -112,7 +114,7 @@ def _run(events: list, keys: list, pa0: int, ps0: int, pa1: int, ps1: int) -> bo
                 trace.append(NAMES[ev])
                 if ev in (MSG_A, MSG_B):
                     if conn.connection_state is ConnectionState.CLOSED:
-                        return True
+                        return track.pruned()
                     cls = A if ev == MSG_A else B
                     m = cls(key=keys[ki])
                     ki += 1
@@ -120,23 +122,23 @@ def _run(events: list, keys: list, pa0: int, ps0: int, pa1: int, ps1: int) -> bo
                     conn.process_packet(25 if ev == MSG_A else 26, m.SerializeToString())
                 elif ev == DRAIN:
                     if not loop._ready:
-                        return True
+                        return track.pruned()
                     loop.run_ready()
                 elif ev == TURN:
                     if not loop._ready:
-                        return True
+                        return track.pruned()
                     loop.turn()
                 elif ev == TIMER:
                     loop.run_ready()
                     if loop.next_timer() is None:
-                        return True
+                        return track.pruned()
                     loop.turn()
                     model_timers()
                     loop.run_ready()
                 elif ev in (CANCEL0, CANCEL1):
                     c = calls[ev - CANCEL0]
                     if c.task is None or c.task.done():
-                        return True
+                        return track.pruned()
                     c.task.cancel()
                     if c.model_done is None:
                         c.model_done = "cancelled"
@@ -144,7 +146,7 @@ def _run(events: list, keys: list, pa0: int, ps0: int, pa1: int, ps1: int) -> bo
                         c.model_done = c.model_done + "|cancelled"  # raced with its completion: either outcome
                 elif ev == CLOSE:
                     if conn.connection_state is ConnectionState.CLOSED:
-                        return True
+                        return track.pruned()
                     closed_exc = SocketClosedAPIError("peer went away")
                     for c in calls:
                         if c.task is not None and c.model_done is None:
@@ -152,7 +154,7 @@ def _run(events: list, keys: list, pa0: int, ps0: int, pa1: int, ps1: int) -> bo
                     conn.report_fatal_error(closed_exc)
                 elif ev == SPAWN1:
                     if calls[1].task is not None:
-                        return True
+                        return track.pruned()
                     was_open = conn.connection_state is not ConnectionState.CLOSED
                     spawn(calls[1])
                     if helper.fail is not None and was_open:
@@ -163,7 +165,7 @@ def _run(events: list, keys: list, pa0: int, ps0: int, pa1: int, ps1: int) -> bo
                         closed_exc = SocketClosedAPIError("write failed")
                 elif ev == FAILW:
                     if helper.fail is not None or calls[1].task is not None or conn.connection_state is ConnectionState.CLOSED:
-                        return True
+                        return track.pruned()
                     helper.fail = OSError("write failed")
             loop.run_ready()
             if track.reached():
@@ -255,6 +257,7 @@ def _pair_enabled(cfg: int, e0: int, e1: int) -> bool:
 def h11_4(e0: int, e1: int, e2: int, e3: int, k0: int, k1: int, k2: int, k3: int, pa0: int, ps0: int, pa1: int, ps1: int) -> bool:
     """
     pre: e0 == SH0
+    pre: SH1LO <= e1 < SH1HI
     pre: 0 <= e1 < NE and 0 <= e2 < NE and 0 <= e3 < NE
     pre: 0 <= k0 < 4 and 0 <= k1 < 4 and 0 <= k2 < 4 and 0 <= k3 < 4
     pre: 0 <= pa0 < 4 and 0 <= ps0 < 4 and 0 <= pa1 < 4 and 0 <= ps1 < 4
@@ -281,8 +284,11 @@ def shards(tier: str) -> list:
     for cfg in range(len(CONFIGS)):
         for ev in firsts:
             if tier == "quick":
-                out.append({"fn": "h11_4", "env": {"CFG": cfg, "SH0": ev}, "cond_timeout": 600, "path_timeout": 60,
-                            "desc": f"predicate/type configuration {cfg}, first event {NAMES[ev]}, then 3 symbolic events; symbolic message keys and predicate parameters"})
+                for lo, hi in ((0, 3), (3, 6), (6, NE)):
+                    if not any(_pair_enabled(cfg, ev, e1) for e1 in range(lo, hi)):
+                        continue  # no second event of this slice is enabled after the first
+                    out.append({"fn": "h11_4", "env": {"CFG": cfg, "SH0": ev, "SH1LO": lo, "SH1HI": hi}, "cond_timeout": 600, "path_timeout": 60,
+                                "desc": f"predicate/type configuration {cfg}, first event {NAMES[ev]}, second in [{lo},{hi}), then 2 symbolic events; symbolic message keys and predicate parameters"})
             else:
                 for ev1 in range(NE):
                     if not _pair_enabled(cfg, ev, ev1):
